@@ -21,7 +21,7 @@ from vf import core
 from vf.ref import excel as ref
 
 ID = 'C15'
-N = {'quick': 4000, 'thorough': 60000}
+N = {'quick': 3000, 'thorough': 60000}
 NT_RULE = ('workbook = sheet name + decoy sheets + comment row or not + header strings + cell matrix, '
            'drawn per case index from a seeded PRNG after a list of directed workbooks; non-trivial = '
            '>=2 data rows, >=1 special column family with a filled cell and >=1 empty cell; distinct = '
@@ -626,12 +626,17 @@ def _scalar_eq(got, want):
     return _num_eq(float(got), float(want))
 
 
+_ERR = [0.0]
+
+
 def _num_eq(g, w):
     if g == w:
         return True, 0.0
     if math.isnan(g) or math.isnan(w):
         return False, None
     e = abs(g - w) / max(1.0, abs(g), abs(w))
+    if e <= NUM_TOL and e > _ERR[0]:
+        _ERR[0] = e
     return e <= NUM_TOL, e
 
 
@@ -824,6 +829,7 @@ def _compare(ctx, spec, headers, rows, records, refs):
                 seen[oid] = (i, k)
     if ok4:
         ctx.held('X4')
+    ctx.max_err['X2'] = max(ctx.max_err.get('X2', 0.0), _ERR[0])
 
 
 # ---------------------------------------------------------------- driver
